@@ -148,6 +148,7 @@ SPECS['C12'] = {'runs': {
               R('normalize-kill-dots', 'h_norm.c', ['P_C12'] + NORM_DOTS, 'same with <=3 segment paths', ['source-killed'], 600),
               R('readonly-inputs', 'h_c20.c', ['NMAX=3'], 'bases, sources, comparison/recomposition/mask-query operands and query lists marked read-only during every call of a mixed workload', ['mixed-workload'], 600)],
     'thorough': [R('make-owner', 'h_owner.c', ['KO=2', 'SEGL=2'], 'as quick with <=2 segments of <=2 chars', ['host-ip6'], 2400),
+              R('make-ownerW', 'h_owner.c', ['WIDE', 'KO=1'], 'wchar_t variant, every authority shape', ['host-ip6', 'host-ipfuture'], 2400),
               R('normalize-kill', 'h_norm.c', ['P_C12'] + NORM_CASE, 'as quick', ['source-killed'], 1200),
               R('normalize-kill-pct', 'h_norm.c', ['P_C12'] + NORM_PCT_T, 'with percent-encoded triplets in every component', ['source-killed'], 2400),
               R('readonly-inputs', 'h_c20.c', ['NMAX=4'], 'as quick, texts <=4', ['mixed-workload'], 2400)]},
@@ -225,6 +226,7 @@ SPECS['C17'] = {'runs': {
     'bounds': {'quick': '<=2 items of <=1 char; dissect N<=5; 3 items arithmetic', 'thorough': '<=2 chars, N<=7, 4 items'}, 'outside': 'longer lists and strings'}
 SPECS['C18'] = {'runs': {
     'quick': [R('file', 'h_file.c', ['NMAX=4'], 'all Unix names and all backslash-only Windows names (drive-absolute, UNC with server, relative) over 1..255 of length 0..4; buffers of exactly the documented sizes', ['unix-absolute', 'unix-relative', 'win-drive', 'win-unc', 'win-relative'], 900),
+              R('fileW', 'h_file.c', ['WIDE', 'NMAX=3'], 'wchar_t names over code points 1..255 of length 0..3', ['unix-absolute', 'win-unc'], 600),
               R('short-forms', 'h_file.c', ['SHORTFORMS'], 'file:/x and file:c:/x (concrete)', ['short-forms'], 100)],
     'thorough': [R('file', 'h_file.c', ['NMAX=5'], 'length 0..5', ['win-drive', 'win-unc'], 3000), R('fileW', 'h_file.c', ['WIDE', 'NMAX=4'], 'wide, code points 1..255, length 0..4', ['win-unc'], 3000),
                  R('short-forms', 'h_file.c', ['SHORTFORMS'], 'concrete', ['short-forms'], 100)]},
